@@ -657,6 +657,61 @@ theorem reachable_good {nrGens : Nat} {rels : List (List Int)} {maxRows : Nat} {
     (hr : BT.Reach (btProblem nrGens rels maxRows) (.ok (Table.new nrGens)) (.ok t)) : Good t :=
   reach_good hr (fun t' h => by injection h with h; exact h ▸ good_new nrGens) t rfl
 
+/-! ### only complete states are extracted -/
+
+theorem firstFreeRow_none (t : Table) (k : Nat) : ∀ (gs : List Int),
+    firstFreeRow t k gs = .ok none → ∀ g ∈ gs, ∃ d, t.get k g = .ok (some d)
+  | [], _, g, hg => by cases hg
+  | x :: gs, h, g, hg => by
+    simp only [firstFreeRow] at h
+    cases hx : t.get k x with
+    | ok o =>
+      cases o with
+      | none => simp [hx] at h
+      | some d =>
+        simp only [hx] at h
+        rcases List.mem_cons.mp hg with rfl | hg
+        · exact ⟨d, hx⟩
+        · exact firstFreeRow_none t k gs h g hg
+    | err => simp [hx] at h
+    | panic => simp [hx] at h
+
+theorem firstFreeRows_none (t : Table) : ∀ (ks : List Nat),
+    firstFreeRows t ks = .ok none → ∀ k ∈ ks, ∀ g ∈ t.allGens, ∃ d, t.get k g = .ok (some d)
+  | [], _, k, hk => by cases hk
+  | x :: ks, h, k, hk => by
+    simp only [firstFreeRows] at h
+    cases hx : firstFreeRow t x t.allGens with
+    | ok o =>
+      cases o with
+      | none =>
+        simp only [hx] at h
+        rcases List.mem_cons.mp hk with rfl | hk
+        · exact firstFreeRow_none t k _ hx
+        · exact firstFreeRows_none t ks h k hk
+      | some p =>
+        rw [hx] at h
+        cases h
+    | err => rw [hx] at h; cases h
+    | panic => rw [hx] at h; cases h
+
+/-- a table is yielded only from a state in which every slot of every row is defined; the
+    yielded table is the `compact()` of that state -/
+theorem btExtract_complete {t t' : Table} (h : btExtract (.ok t) = some (.ok t')) :
+    t.compact = .ok t' ∧ ∀ k, k < t.len → ∀ g ∈ t.allGens, ∃ d, t.get k g = .ok (some d) := by
+  simp only [btExtract] at h
+  cases hf : firstFreeInTable t with
+  | ok r =>
+    cases r with
+    | none =>
+      simp only [hf, Option.some.injEq] at h
+      refine ⟨h, ?_⟩
+      intro k hk g hg
+      exact firstFreeRows_none t _ hf k (List.mem_range.mpr hk) g hg
+    | some p => simp [hf] at h
+  | err => simp [hf] at h
+  | panic => simp [hf] at h
+
 /-! ### `join` under the union-find view (C11) -/
 
 /-- inverse consistency under the union-find view: for a canonical row `c`,
